@@ -63,6 +63,38 @@ def cmdSer (cls entry opts data : String) : String :=
       s!"ok {hexOfBytes (framesBytes true frames)} flow={fl} {errText err}"
   | _ => "?bad-entry"
 
+/-- `serr <cls> <opts> <isGraph01> <ns|_> <data>` : the rdflib serializer loops.
+    T: data = graphs separated by `+`, each a `/`-list of triples;
+    Q: data = `/`-list of quads;  G: data = graphs separated by `+`, each `<gid>@<triples>`. -/
+def cmdSerR (cls opts isGraph ns data : String) : String :=
+  let o := parseSerOptions opts
+  let nsV : Option (List (String × String)) :=
+    if ns == "_" then some [] else
+    (ns.splitOn "/").mapM fun b =>
+      match b.splitOn "=" with
+      | [k, v] => some (strOfBytes (bytesOfHex k), strOfBytes (bytesOfHex v))
+      | _ => none
+  match streamClass? cls, nsV with
+  | some c, some nss =>
+    match Stream.new c o with
+    | .error e => "!" ++ e.name
+    | .ok s =>
+      let ig := isGraph == "1"
+      let run : Option Run := match c with
+        | .triple => ((if data == "-" then some [] else (data.splitOn "+").mapM parseStmts)).map (triplesStreamFramesR s ig nss)
+        | .quad => (parseStmts data).map (quadsStreamFramesR s ig nss)
+        | .graph =>
+          ((if data == "-" then some [] else (data.splitOn "+").mapM fun g =>
+            match g.splitOn "@" with
+            | [gid, sts] => match parseTerm gid, parseStmts sts with
+              | some t, some l => some (t, l)
+              | _, _ => none
+            | _ => none)).map (graphsStreamFramesR s ig nss)
+      match run with
+      | none => "?bad-data"
+      | some r => s!"ok {hexOfBytes (framesBytes o.params.delimited r.frames)} flow={r.stream.flow.rows.length} {errText r.err}"
+  | _, _ => "?bad-args"
+
 /-- `step <cls> <opts> op…` : a stream driven call by call, exceptions caught by the caller. -/
 def cmdStep (cls opts : String) (ops : List String) : String :=
   match streamClass? cls with
@@ -84,15 +116,17 @@ def cmdStep (cls opts : String) (ops : List String) : String :=
           match takeStmt 16 (op.drop 2).toString.toList [] with
           | some (ts, []) =>
             let (s', r) := s.triple .stopIteration ts
+            let dirty := decide (s'.enc ≠ s.enc)
             s := s'
-            out := out ++ [match r with | .ok f => fr f | .error e => "!" ++ e.name]
+            out := out ++ [match r with | .ok f => fr f | .error e => "!" ++ e.name ++ (if dirty then "~" else "")]
           | _ => out := out ++ ["?bad-op"]
         else if op.startsWith "q:" then
           match takeStmt 16 (op.drop 2).toString.toList [] with
           | some (ts, []) =>
             let (s', r) := s.quad .stopIteration ts
+            let dirty := decide (s'.enc ≠ s.enc)
             s := s'
-            out := out ++ [match r with | .ok f => fr f | .error e => "!" ++ e.name]
+            out := out ++ [match r with | .ok f => fr f | .error e => "!" ++ e.name ++ (if dirty then "~" else "")]
           | _ => out := out ++ ["?bad-op"]
         else if op.startsWith "g:" then
           match (op.drop 2).toString.splitOn "@" with
@@ -100,9 +134,10 @@ def cmdStep (cls opts : String) (ops : List String) : String :=
             match parseTerm gid, parseStmts sts with
             | some g, some triples =>
               let (s', frames, err) := s.graph .runtimeError g triples
+              let dirty := decide (s'.enc ≠ s.enc) || decide (s'.flow.rows.length ≠ s.flow.rows.length) || !frames.isEmpty
               s := s'
               let fs := "+".intercalate (frames.map fun f => "F" ++ hexOfBytes (writeDelimited f))
-              out := out ++ [(if frames.isEmpty then "-" else fs) ++ (match err with | some e => "!" ++ e.name | none => "")]
+              out := out ++ [(if frames.isEmpty then "-" else fs) ++ (match err with | some e => "!" ++ e.name ++ (if dirty then "~" else "") | none => "")]
             | _, _ => out := out ++ ["?bad-op"]
           | _ => out := out ++ ["?bad-op"]
         else if op.startsWith "ns:" then
@@ -188,6 +223,7 @@ def handle (line : String) : String :=
   | "lk" :: rule :: size :: keys =>
     cmdLk rule (size.toNat?.getD 0) (keys.map fun k => strOfBytes (bytesOfHex (k.drop 1).toString))
   | ["ser", cls, entry, opts, data] => cmdSer cls entry opts data
+  | ["serr", cls, opts, isGraph, ns, data] => cmdSerR cls opts isGraph ns data
   | "step" :: cls :: opts :: ops => cmdStep cls opts ops
   | ["trace", cls, opts, data] => cmdTrace cls opts data
   | ["fits", opts, data] =>
